@@ -22,10 +22,18 @@
   of SHA-256 (assumption). Relay scenario: Go oracle of the `smp` profile.
   `startAuthenticate_question_nul` (repaired code): a question with a NUL byte (the peer would see it cut
   short, and read the rest as MPIs) is refused before any SMP state is set up.
+  `startAuthenticateExpect1_refused`, `startAuthenticateExpect1_short_random_keeps_smp`,
+  `startAuthenticate_short_random_keeps_smp` (repaired code; Proofs.Fixes4): a StartAuthenticate that is refused —
+  not encrypted, or one of the four randomness reads fails (`shortRandom`) — leaves the whole conversation, in
+  particular the SMP component (secret, first-message state, state) of a run in progress, exactly as it was; only
+  the randomness tape has advanced (at the API level a nil SMP state has become EXPECT1, `ensureSmpConv`).
+  Before the repair the secret computed from the new argument had already replaced the one of the run in progress.
+  `startAuthenticateExpect1_run_short_random`: the call is refused in this way whenever one of the four reads fails.
 -/
 
 import Proofs.Smp
 import Proofs.ConvLife
+import Proofs.Fixes4
 namespace Otr.C11
 open Otr
 
@@ -55,5 +63,41 @@ theorem c11_unequal_fail : type_of% @Otr.c11_unequal_fail := @Otr.c11_unequal_fa
 
 /-- repaired code: a question containing a NUL byte is refused, no SMP state is set up -/
 theorem startAuthenticate_question_nul : type_of% @Otr.startAuthenticate_question_nul := @Otr.startAuthenticate_question_nul
+
+/-- repaired code: a refused `startAuthenticateExpect1` (only `cantAuthenticate` or `shortRandom` are thrown) leaves conversation and log as they were; only the randomness tape advances -/
+theorem startAuthenticateExpect1_refused (K : Crypto) (q secret : Bytes) (s s' : MState) (e : Err)
+    (h : runM (startAuthenticateExpect1 K q secret) s = .ok (.error e, s')) :
+    ∃ env' mm', s' = { s with env := env', mismatch := mm' } ∧ EnvStep s.env env' ∧
+      ((e = .cantAuthenticate ∧ s.conv.msgState ≠ .encrypted ∧ s' = s) ∨
+       (e = .shortRandom ∧ s.conv.msgState = .encrypted)) := by
+  first | exact Otr.startAuthenticateExpect1_refused | exact @Otr.startAuthenticateExpect1_refused | (apply Otr.startAuthenticateExpect1_refused <;> assumption) | (intros; apply Otr.startAuthenticateExpect1_refused <;> assumption)
+
+/-- repaired code: the randomness read fails (the call throws `shortRandom`) — the SMP component, the whole conversation and the log are exactly what they were -/
+theorem startAuthenticateExpect1_short_random_keeps_smp (K : Crypto) (q secret : Bytes) (s s' : MState)
+    (h : runM (startAuthenticateExpect1 K q secret) s = .ok (.error .shortRandom, s')) :
+    s'.conv.smp = s.conv.smp ∧ s'.conv = s.conv ∧ s'.events = s.events ∧ EnvStep s.env s'.env := by
+  first | exact Otr.startAuthenticateExpect1_short_random_keeps_smp | exact @Otr.startAuthenticateExpect1_short_random_keeps_smp | (apply Otr.startAuthenticateExpect1_short_random_keeps_smp <;> assumption) | (intros; apply Otr.startAuthenticateExpect1_short_random_keeps_smp <;> assumption)
+
+/-- the call throws `shortRandom` whenever one of the four reads of `randMPIs 4 len` fails -/
+theorem startAuthenticateExpect1_run_short_random (K : Crypto) (q secret : Bytes) (s s1 : MState)
+    (tk ok : DsaPub) (v : Version) (vs : List (Option Nat))
+    (hm : s.conv.msgState = .encrypted) (htk : s.conv.theirKey = some tk) (hok : s.conv.ourCurrentKey = some ok)
+    (hv : s.conv.version = some v)
+    (hr : runM (randMPIs 4 v.parameterLength) s = .ok (.ok vs, s1)) (hfail : allSome vs = none) :
+    runM (startAuthenticateExpect1 K q secret) s = .ok (.error .shortRandom, s1) := by
+  first | exact Otr.startAuthenticateExpect1_run_short_random | exact @Otr.startAuthenticateExpect1_run_short_random | (apply Otr.startAuthenticateExpect1_run_short_random <;> assumption) | (intros; apply Otr.startAuthenticateExpect1_run_short_random <;> assumption)
+
+/-- repaired code, API level: the randomness read of `startAuthenticateExpect1` fails — `StartAuthenticate` throws `shortRandom`, sends nothing, and the conversation is what it was except that a nil SMP state has become EXPECT1 -/
+theorem startAuthenticate_short_random_keeps_smp (K : Crypto) (q secret : Bytes) (s s1 : MState)
+    (hq1 : q.contains 0 = false) (hq2 : q.length ≤ maxSMPQuestionLength)
+    (h : runM (startAuthenticateExpect1 K q secret) { s with conv := ensureSmpConv s.conv } =
+      .ok (.error .shortRandom, s1)) :
+    runM (startAuthenticate K q secret) s = .ok (.error .shortRandom, s1) ∧
+    s1.conv = ensureSmpConv s.conv ∧
+    s1.conv.smp = { s.conv.smp with state := some (s.conv.smp.state.getD .expect1) } ∧
+    (∀ st, s.conv.smp.state = some st → s1.conv.smp = s.conv.smp ∧ s1.conv = s.conv) ∧
+    (s.conv.smp.state = none → s1.conv.smp = { s.conv.smp with state := some .expect1 }) ∧
+    s1.events = s.events ∧ EnvStep s.env s1.env := by
+  first | exact Otr.startAuthenticate_short_random_keeps_smp | exact @Otr.startAuthenticate_short_random_keeps_smp | (apply Otr.startAuthenticate_short_random_keeps_smp <;> assumption) | (intros; apply Otr.startAuthenticate_short_random_keeps_smp <;> assumption)
 
 end Otr.C11
